@@ -1,5 +1,5 @@
 (** C15 - Rate limiter bounds bursts and never stalls a transfer (local accounting facts). *)
-From IsoTp Require Import Base.Prelude Model.Layer Spec.ConfigSpec Proofs.LocalP Model.Micro Proofs.LimP.
+From IsoTp Require Import Base.Prelude Model.Layer Spec.ConfigSpec Proofs.LocalP Model.Micro Proofs.LimP Proofs.LimWinP.
 
 (** With the limiter disabled the allowance is 2^32-1 bytes: no frame (at most 64 bytes) is
     ever held back. *)
@@ -30,8 +30,25 @@ Theorem C15_emission_needs_budget : forall c s, params_ok (c_p c) -> pending_fc 
   forall m, tr_msg (process_tx c s) = Some m -> Efact (lim_allowed_bytes (c_p c) s) m.
 Proof. exact emission_needs_budget. Qed.
 
+(** The sliding window itself, on the clock the layer reads.  [grunE] logs, along a run, the instant and
+    the data-field bits of every Single / First / Consecutive Frame handed to txfn.  After ANY run of
+    micro-steps from the initial state with the limiter enabled (any traffic, any sends, any schedule;
+    the clock is never set back and reset() - which empties the limiter - is not called), the frames
+    emitted during the last (window - 5 ms) carry at most bitrate x window bits (the exact rational
+    bn/bd) plus one CAN FD frame.  As the bound holds in every reachable state, it holds in particular
+    right after each emission: for every interval that ends at an emission and is shorter than
+    window - 5 ms. *)
+Theorem C15_sliding_window : forall c, params_ok (c_p c) -> p_lim_enable (c_p c) = true ->
+  forall t0 ms, Forall tick_ok ms ->
+  let s := fst (mrun c (init_layer c t0) ms) in
+  let E := grunE c (init_layer c t0) [] ms in
+  forall T, now s - p_lim_window_ns (c_p c) + SLOT_NS <= T ->
+    log_sum T E * p_lim_bd (c_p c) <= p_lim_bn (c_p c) + 8 * 64 * p_lim_bd (c_p c).
+Proof. exact sliding_window. Qed.
+
 Print Assumptions C15_off.
 Print Assumptions C15_allowance.
 Print Assumptions C15_accounting.
 Print Assumptions C15_window_bound.
 Print Assumptions C15_emission_needs_budget.
+Print Assumptions C15_sliding_window.
